@@ -164,30 +164,9 @@ theorem C04_resume_replays (s : EState) :
     ∃ g, (startResume s).planStack = g :: s.planStack ∧ Yields g (s.msgCache.getD []) ∧
       (startResume s).respStack = .none :: s.respStack ∧ (startResume s).msgCache = some [] ∧
       (startResume s).msgs = s.msgs := by
-  refine ⟨.list (s.msgCache.getD []), ?_, yields_list _, ?_, startResume_cache s, ?_⟩
-  all_goals
-    unfold startResume
-    simp only []
-    have hr := ck_rewindPlan (forBundlers { s with interrupted := false } fun s b => recordInterruption s b "resume")
-    have hf := rewindPlan_fst (forBundlers { s with interrupted := false } fun s b => recordInterruption s b "resume")
-    have h0 : ck (forBundlers { s with interrupted := false } fun s b => recordInterruption s b "resume") = ck s := by
-      rw [ck_forBundlers_ri]; rfl
-    generalize rewindPlan (forBundlers { s with interrupted := false } fun s b => recordInterruption s b "resume") = p at hr hf
-    obtain ⟨rw, s2⟩ := p
-    simp only at hr hf ⊢
-    rw [ck_cache h0] at hf
-    subst hf
-  · show (resumeHooks _).planStack = _
-    rw [ck_plans (ck_resumeHooks _)]
-    show Gen.list _ :: s2.planStack = _
-    rw [show s2.planStack = s.planStack from (congrArg Ck.plans hr).trans (ck_plans h0)]
-  · show (resumeHooks _).respStack = _
-    rw [ck_resps (ck_resumeHooks _)]
-    show Resp.none :: s2.respStack = _
-    rw [show s2.respStack = s.respStack from (congrArg Ck.resps hr).trans (ck_resps h0)]
-  · show (resumeHooks _).msgs = _
-    rw [ck_msgs (ck_resumeHooks _)]
-    exact (congrArg Ck.msgs hr).trans (ck_msgs h0)
+  have h := ck_startResume s
+  exact ⟨.list (s.msgCache.getD []), congrArg Ck.plans h, yields_list _, congrArg Ck.resps h,
+    congrArg Ck.cache h, congrArg Ck.msgs h⟩
 
 /-- `_start_suspender` pushes the helper
     `rewindable(False); pre; wait_for; _resume_from_suspender; post; rewindable(was); <the cache>`:
